@@ -1,4 +1,5 @@
 import ErrModel.Recipe
+import ErrModel.Migrations
 /-
   Observation streams printed by the driver (and, identically, by the harness
   from the real code).
@@ -90,6 +91,16 @@ def runLine (line : String) : String :=
       match decode Full [1] w with
       | none => id ++ " (res (panic))"
       | some e => id ++ " " ++ pList ["res", pList ["tree", pTree e], pList ["enc", pEnc (encode Full vfStub e)]]
+  | some [.sym id, .list [.sym "mig", .list regs, .list keys]] =>
+    let decls := regs.filterMap (fun x => match x with
+      | .list [.str p, .str n] => some (p, n)
+      | _ => none)
+    match registerAll register [] decls with
+    | none => id ++ " (res (panic))"
+    | some reg =>
+      id ++ " " ++ pList ["res", pList ["resolve", pList (keys.filterMap (fun k => match k with
+        | .str s => some (pStr (resolveKey reg s))
+        | _ => none))]]
   | _ => "? (bad line)"
 
 end ErrModel
